@@ -560,6 +560,39 @@ func randTokens(r *Rng) []token {
 			ts = append(ts, token{kind: "jumpn", jif: r.Bool(), addr: addrs[r.Intn(len(addrs))]})
 		}
 	}
+	if r.Chance(60) {
+		// mostly-valid mode: known mnemonics, every label defined exactly once, 32-bit targets
+		defined := map[string]bool{}
+		var out []token
+		for _, t := range ts {
+			switch t.kind {
+			case "name":
+				if _, err := vm.Assemble(t.name); err != nil {
+					t.name = vm.Op(byte(0x61 + r.Intn(0x60))).String()
+					if strings.HasPrefix(t.name, "JUMP") {
+						t.name = "NOP"
+					}
+				}
+			case "label":
+				if defined[t.lab] {
+					continue
+				}
+				defined[t.lab] = true
+			case "jumpn":
+				if len(t.addr) > 9 {
+					t.addr = "4294967295"
+				}
+			}
+			out = append(out, t)
+		}
+		for _, t := range out {
+			if t.kind == "jumpl" && !defined[t.lab] {
+				defined[t.lab] = true
+				out = append(out, token{kind: "label", lab: t.lab})
+			}
+		}
+		ts = out
+	}
 	return ts
 }
 
